@@ -9,7 +9,7 @@ PROPS = {
     "C01": {
         "level": "proof", "prove": True, "ground": [],
         "assumptions": DEFS_BY_CODE + [
-            "second-order instantiation: the expansion contracts are proved for an uninterpreted 'covered' predicate m; Satisfies assumes m(t) <=> some allowed node matches t (sound as long as no other clause constrains m; checked by inspection of the contract file)",
+            "second-order instantiation: the expansion contracts are proved for an uninterpreted 'covered' predicate m; Satisfies assumes m(t) <=> some allowed node matches t (sound as long as no other clause constrains m: govc checks on every run that m occurs in no requires, type invariant or second assume and only in axioms that are elimination rules of other opaque functions; a contract file that breaks this is an engine error)",
             "the allowed nodes are those in the array after the in-place sort and compaction of sortAndDedup; that they denote the same set as the allowed list is the subject of C07",
             "matchT includes, besides the documented rule, the code's shortcut 'same exception and canonical strings equal up to letter case'; on canonical spellings the two coincide (foldUnique, ground-evaluated under C09/C12)",
             "sem, the reference grammar and the matching rule are transcriptions of the property text and are trusted as its meaning",
